@@ -11,19 +11,10 @@ from . import map_rules as mr
 from .common import is_name, params, calls_in
 from .kernel_rules import run_kernel, KERNEL
 
-EXPLANATION = (
-    "The reduced numbers themselves are NOT decided. Decided necessary conditions: (R1/R2) in thick mode every mask that "
-    "narrows the cell set depends on the cell size AND on dz and is not FALSE in the large-cell limit (a slab thinner than "
-    "the cells it cuts, a column deeper than the window); (R3) the reduction acts on axis 1, which is the depth position "
-    "of the kernel's output shape (layers, nz, ny, nx), and uses each layer's merged operation; the kernel's depth window "
-    "uses the same conservative half-extent as x and y; (R4) for every layer the values are multiplied by the depth step "
-    "and the unit by the length unit under ONE guard (thick and operation in {sum, nansum}); (R5) depth grid formulas as "
-    "polynomial identities: zmin,zmax = -/+dz/2, zspacing = (zmax-zmin)/nz, centres = linspace(zmin+zspacing/2, "
-    "zmax-zspacing/2, nz), default nz = round((zmax-zmin)/((xspacing+yspacing)/2)).")
-NOT_DECIDED = "the reduced numbers; NaN propagation of each numpy reduction; dz smaller than a pixel (outside the quantifier)"
-TRUSTED = ("CPython ast", "numpy reduction semantics (axis=)", "kernel rules of C03")
-TECHNIQUE = ("static analysis: dependence and asymptotic-limit analyses under the thick-mode specialisation, symbolic kernel "
-             "evaluation, formula identities, guard agreement")
+EXPLANATION = "(R1) slab pre-selection of map(): dependence on cell size and dz (D4) and large-cell limit (D5) in thick mode; (R3/R5) map() interpreted over token layers with symbolic numpy values in thin, thick(nz given) and thick(nz derived) scenarios: each layer reduced along the depth axis of the kernel output (axis located by the symbolic kernel evaluation) with its OWN operation, values and unit scaled by the depth spacing exactly for thick sum/nansum, depth window [-dz/2, dz/2], spacing dz/nz with nz given or round(dz / mean pixel size), depth sample points = bin centres, caller's resolution dict untouched; kernel footprint along z; (R6) Layer component views keep the operation (shared with C19)."
+NOT_DECIDED = 'numerical quadrature error of the depth sum; floating-point rounding of the depth grid'
+TRUSTED = ('CPython ast', 'numpy reduction semantics', 'the interpreter sa/models.py (ModelEval) and its library models', 'sa/symnp.py')
+TECHNIQUE = 'static analysis: abstract interpretation of map() over symbolic numpy values, dependence/limit analyses, symbolic kernel evaluation'
 
 MAP = mr.MAP
 
